@@ -169,6 +169,25 @@ func runProp(c *Ctx, id string) (rep *Report) {
 		}
 	}()
 	pc.Run(c, rep)
+	// what helper folding did to the loaded modules (E12): part of "what was analysed"
+	{
+		folded := map[string]any{}
+		names := make([]string, 0, len(c.mods))
+		for name := range c.mods {
+			names = append(names, name)
+		}
+		sort.Strings(names)
+		for _, name := range names {
+			if fl := c.mods[name].Folded; len(fl) > 0 {
+				folded[name] = fl
+			}
+		}
+		rep.Extra["helper_folding"] = map[string]any{
+			"anchors":        "anchors/known_funcs.txt",
+			"rule":           "unexported functions absent from the anchor list are inlined into their callers before any rule runs (fold.go)",
+			"folded_helpers": folded,
+		}
+	}
 	// vacuity floors
 	counts := map[string]int{}
 	for _, r := range rep.Results {
